@@ -99,6 +99,16 @@ def OracleExact (E : Env) : Prop :=
 /-- the backend never gives up (C11; dropped for C17) -/
 def NoGiveUp (E : Env) : Prop := ∀ q k, E.oracle q k ≠ .unknown
 
+/-- the backend did give up on some check -/
+def GaveUp (E : Env) : Prop := ∃ q k, E.oracle q k = .unknown
+
+/-- the only error an L1 algorithm can end with: the one `z3_solver_sat` raises when the backend gave up -/
+def IsGiveUp (E : Env) (e : Err) : Prop := e = .giveUp ∧ GaveUp E
+
+theorem IsGiveUp.elim {E : Env} {e : Err} (h : IsGiveUp E e) (hN : NoGiveUp E) : False := by
+  obtain ⟨_, q, k, hk⟩ := h
+  exact hN q k hk
+
 end Claripy.Solver
 
 namespace Claripy.Solver
